@@ -344,6 +344,7 @@ def gen_state_sequence(rng):
         lm = p['load_median'] * 10 ** (rng.uniform(-1.5, 1.5) * s)
         ls = p['load_std'] * 10 ** rng.uniform(-0.5, 0.5)
         ops.append(dict(op='norm', load_median=lm, load_std=ls))
+    ops.append(dict(ops[0], load_std=ops[0]['load_std'] * 10 ** rng.uniform(0.1, 0.5)))     # same load median, other scatter
     c = math.log10(p['load_median'])
     ops.append(dict(op='norm_limits', load_median=p['load_median'], load_std=p['load_std'],
                     lower_limit=c - rng.uniform(4, 16) * p['load_std'], upper_limit=c + rng.uniform(4, 16) * p['load_std']))
@@ -491,8 +492,12 @@ def impl_relations(res, rng, n_pts, n_chain, n_lim, n_arb, n_simple, n_state):
         fp = FP.FailureProbability(sm, ss)
         R.n += 1
         try:
-            loads = np.array([L, L * 10 ** (0.3 * ss), L * 10 ** (1.1 * ss)])
-            arr = np.asarray(fp.pf_simple_load(loads), float)
+            given = np.array([L, L * 10 ** (0.3 * ss), L * 10 ** (1.1 * ss)])
+            loads = given.copy()
+            arr = np.asarray(fp.pf_simple_load(given), float)
+            if not np.array_equal(given, loads):
+                R.bad(W_PURE, function='pf_simple_load', modified_argument='load', strength_median=sm, strength_std=ss, load=loads.tolist(),
+                      load_array_after_the_call=given.tolist())
             sc = [float(fp.pf_simple_load(float(x))) for x in loads]
             dec = float(FP.FailureProbability(sm * 10 ** (0.4 * ss), ss).pf_simple_load(L))
         except Exception as e:   # noqa
